@@ -184,6 +184,24 @@ def bioSeek (b : BytesIO) (n whence : Int) : M (Int × BytesIO) :=
   else if whence = 2 then (let p := if (b.buf.length : Int) + n < 0 then 0 else (b.buf.length : Int) + n; pure (p, ⟨b.buf, p⟩))
   else throw (.lib "ValueError")
 
+/-! ### a stream handed to a function: its position, and what `read(n)` answers there -/
+
+/-- `substrate.read(n)` at position `pos` on a stream whose answers are given by `rd` (`none` = `None`: nothing yet):
+    the position moves by what was handed out -/
+def rsRead (rd : Int → Int → Option Tup) (pos n : Int) : Option Tup × Int :=
+  match rd pos n with
+  | none => (none, pos)
+  | some t => (some t, pos + t.length)
+
+/-- `substrate.seek(n, whence)` with `whence` = os.SEEK_CUR (1) or os.SEEK_SET (0) on such a stream -/
+def rsSeek (pos n whence : Int) : M (Int × Int) :=
+  if whence = 1 then (let p := if pos + n < 0 then 0 else pos + n; pure (p, p))
+  else if whence = 0 then (if n < 0 then throw (.lib "ValueError") else pure (n, n))
+  else throw (.lib "ValueError")
+
+/-- `min(a, b)` -/
+def imin (a b : Int) : Int := if b < a then b else a
+
 /-- octets required where `None` may have arrived: Python's TypeError -/
 def unwrap (x : Option Tup) : M Tup :=
   match x with
